@@ -287,6 +287,9 @@ class OpGen:
                     self.p["weights"] = {**self.DEFAULTS["weights"], **v}
                 else:
                     self.p[k] = v
+        excl = set(self.p.get("exclude_fns", ()))
+        self.GOOD = {k: ([f for f in v if f not in excl] or list(v)) for k, v in GOOD_FNS.items()}
+        self.excl_fns = excl
 
     # -- helpers ------------------------------------------------------------
     def pick_inst(self):
@@ -378,16 +381,17 @@ class OpGen:
             m = f"transform_{name}"
             fkind = kind
             if kind in ("list_leaf", "dict_leaf", "list_kitem", "dict_kitem", "klist", "kset"):
-                fns_good = ["ident"] + {"list_leaf": ["rev", "empty_list"], "list_kitem": ["rev", "empty_list"],
+                fns_good = ([] if "ident" in self.excl_fns else ["ident"]) + {"list_leaf": ["rev", "empty_list"], "list_kitem": ["rev", "empty_list"],
                                         "dict_leaf": ["empty_dict"], "dict_kitem": ["empty_dict"],
                                         "klist": ["empty_list"], "kset": ["empty_list"]}[kind]
+                fns_good = [f for f in fns_good if f not in self.excl_fns] or ["empty_list"]
                 fns_bad = ["zero", "app9"] if kind.startswith("list") else ["zero"]
             else:
-                fns_good, fns_bad = GOOD_FNS[fkind], BAD_FNS[fkind]
+                fns_good, fns_bad = self.GOOD[fkind], BAD_FNS[fkind]
             if kind == "leaf" and s.chance(0.5):
-                kw["p"] = ["fn", s.choice(BAD_FNS["int"] if bad else GOOD_FNS["int"])]
+                kw["p"] = ["fn", s.choice(BAD_FNS["int"] if bad else self.GOOD["int"])]
                 if s.chance(0.4):
-                    args.append(["fn", s.choice(GOOD_FNS["leaf"])])
+                    args.append(["fn", s.choice(self.GOOD["leaf"])])
             else:
                 args.append(["fn", s.choice(fns_bad if bad else fns_good)])
                 if s.chance(0.05):
@@ -432,7 +436,7 @@ class OpGen:
         args, kw = [], {}
         good_item = lambda: self.good(ik)  # noqa: E731
         bad_item = lambda: s.choice(bad_items(ik))  # noqa: E731
-        good_fn = lambda: ["fn", s.choice(GOOD_FNS[ik])]  # noqa: E731
+        good_fn = lambda: ["fn", s.choice(self.GOOD[ik])]  # noqa: E731
         bad_fn = lambda: ["fn", s.choice(BAD_FNS[ik])]  # noqa: E731
 
         if fam == "seq":
@@ -501,7 +505,7 @@ class OpGen:
                     if m_by == "true":
                         kw["_by_index"] = True
                 if ik != "int" and s.chance(0.5):
-                    kw["p" if ik == "leaf" else "v"] = ["fn", s.choice(BAD_FNS["int"] if bad else GOOD_FNS["int"])]
+                    kw["p" if ik == "leaf" else "v"] = ["fn", s.choice(BAD_FNS["int"] if bad else self.GOOD["int"])]
                 else:
                     args.append(bad_fn() if bad else good_fn())
             else:
@@ -546,7 +550,7 @@ class OpGen:
                 key = a_key(existing=not (bad and s.chance(0.5)))
                 args.append(key)
                 if ik != "int" and s.chance(0.5):
-                    kw["p" if ik == "leaf" else "v"] = ["fn", s.choice(BAD_FNS["int"] if bad else GOOD_FNS["int"])]
+                    kw["p" if ik == "leaf" else "v"] = ["fn", s.choice(BAD_FNS["int"] if bad else self.GOOD["int"])]
                 else:
                     args.append(bad_fn() if bad else good_fn())
             else:
@@ -588,7 +592,7 @@ class OpGen:
             elif which == "transform":
                 args.append(an_elem(existing=not (bad and s.chance(0.5))))
                 if kind == "kset" and s.chance(0.5):
-                    kw["v"] = ["fn", s.choice(BAD_FNS["int"] if bad else GOOD_FNS["int"])]
+                    kw["v"] = ["fn", s.choice(BAD_FNS["int"] if bad else self.GOOD["int"])]
                 else:
                     args.append(bad_fn() if bad else good_fn())
             else:
@@ -624,10 +628,11 @@ class OpGen:
             for j, n in enumerate(chosen):
                 kd = info[n]["kind"]
                 if kd in GOOD_FNS:
-                    kw[n] = ["fn", s.choice(BAD_FNS[kd] if j == badpos else GOOD_FNS[kd])]
+                    kw[n] = ["fn", s.choice(BAD_FNS[kd] if j == badpos else self.GOOD[kd])]
                 else:
-                    kw[n] = ["fn", "zero" if j == badpos else "ident"]
-            if s.chance(0.15):
+                    alt = "empty_dict" if kd.startswith("dict") else "empty_list"
+                    kw[n] = ["fn", "zero" if j == badpos else (alt if "ident" in self.excl_fns else "ident")]
+            if s.chance(0.15) and "ident" not in self.excl_fns:
                 args.append(["fn", "ident"])
         else:
             pass
@@ -714,7 +719,9 @@ class OpGen:
         return {"op": "mutate", "on": {"i": iid, "path": [["a", name]]}, "how": how, "v": v}
 
     # -- main entry -----------------------------------------------------------
-    def gen(self, only=None, inplace=None):
+    def gen(self, only=None, inplace=None, iid=None, skip_attrs=()):
+        """only: restrict op kind(s) (str or list); iid: target instance; skip_attrs: attribute names
+        that element / nested / direct-mutation ops must not touch."""
         s = self.src
         w = self.w
         if not w.insts:
@@ -722,12 +729,16 @@ class OpGen:
             op["id"] = w.fresh_id()
             return op
         weights = self.p["weights"]
+        fixed_iid = iid
         for _ in range(20):
-            kind = only or s.weighted(list(weights.items()))
+            if isinstance(only, (list, tuple)):
+                kind = s.weighted([(k, weights.get(k, 1) or 1) for k in only])
+            else:
+                kind = only or s.weighted(list(weights.items()))
             if kind == "new":
                 op = self.gen_new()
                 break
-            iid = self.pick_inst()
+            iid = fixed_iid if fixed_iid is not None else self.pick_inst()
             inst = w.insts[iid]
             role = w.role_of(inst)
             info = w.info(role)
@@ -736,7 +747,7 @@ class OpGen:
                 name = s.choice(list(info.keys()))
                 op = self.gen_scalar(iid, inst, name, info[name], inplace)
             elif kind == "element":
-                colls = [n for n, a in info.items() if a["kind"] in COLL_KINDS]
+                colls = [n for n, a in info.items() if a["kind"] in COLL_KINDS and n not in skip_attrs]
                 if colls:
                     name = s.choice(colls)
                     op = self.gen_element(iid, inst, name, info[name], inplace)
@@ -745,6 +756,8 @@ class OpGen:
             elif kind == "set":
                 if s.chance(self.p["p_nested_target"] * 3):
                     op = self.gen_nested_write(iid, inst, role)
+                    if op is not None and op["on"]["path"][0][1] in skip_attrs:
+                        op = None
                 if op is None:
                     op = self.gen_set(iid, inst, role)
             elif kind == "del":
@@ -755,6 +768,12 @@ class OpGen:
                 op = {"op": "deepcopy", "on": {"i": iid}}
             elif kind == "mutate":
                 op = self.gen_mutate(iid, inst, role)
+                if op is not None and op["on"]["path"][0][1] in skip_attrs:
+                    op = None
+            elif kind == "nested":
+                op = self.gen_nested_write(iid, inst, role)
+                if op is not None and op["on"]["path"][0][1] in skip_attrs:
+                    op = None
             if op is not None:
                 break
         else:
